@@ -127,7 +127,7 @@ def busy_world(w: World) -> Tuple[Any, Lst]:
     async def lookup() -> None:
         await AsyncServiceInfo("_c._tcp.local.", "pending._c._tcp.local.").async_request(host.zc, 3000)
 
-    w.spawn(lookup())
+    w.lookup_task = w.spawn(lookup())
     w.advance(50)
     w.net.inject(host, wire.query([("Q", TA, 12, 1)], id_=0x7C, tc=True), ("10.0.0.98", 5353))  # deferred TC query
     w.advance(100)
@@ -194,6 +194,56 @@ def run_one(item: Tuple[str, bytes, int]) -> Tuple[Optional[str], str]:
     return (problems[0] if problems else None), f"{kind}:{'bad' if problems else 'ok'}"
 
 
+S3 = Svc(TA, "s3._a._tcp.local.", "h3.local.", 82, b"", [bytes([10, 0, 0, 3])], [])
+P = "pending._c._tcp.local."
+CANCEL_DATA: List[bytes] = [
+    wire.response([("SRV", P, 0x8001, 120, 0, 0, 80, "ph.local.")]),
+    wire.response([("TXT", P, 0x8001, 4500, b"\x03k=v")]),
+    wire.response([("A", "ph.local.", 0x8001, 120, bytes([10, 0, 0, 50]))]),
+    wire.response([("PTR", "_c._tcp.local.", 1, 4500, P), ("SRV", P, 0x8001, 120, 0, 0, 80, "ph.local."),
+                   ("TXT", P, 0x8001, 4500, b""), ("A", "ph.local.", 0x8001, 120, bytes([10, 0, 0, 50]))]),
+    wire.response([("PTR", TB, 1, 4500, "new._b._tcp.local.")]),
+    wire.response([("PTR", TB, 1, 0, "new._b._tcp.local.")]),
+    wire.query([("Q", TA, 12, 1)], id_=9),
+]
+
+
+def run_cancel(item: Tuple[int, str, str, int]) -> Tuple[Optional[str], str]:
+    """A waiter of the busy instance (the lookup in progress, or a registration between its probes) is cancelled in the
+    very loop iteration in which a datagram arrives (before / after it), or `gap` iterations earlier."""
+    di, target, order, gap = item
+    problems: List[str] = []
+    with World(rand=RandPolicy.const(0.0)) as w:
+        host, lst = busy_world(w)
+        task = w.lookup_task
+        if target == "registration":
+            task = w.spawn(host.zc.async_register_service(make_info(S3)))
+            w.advance(100)  # between the first and the second probe
+        if task.done():
+            raise HarnessError("the waiter to cancel has already finished")
+        if order == "cancel-first":
+            task.cancel()
+            for _ in range(gap):
+                w.loop.run_iteration()
+            w.net.inject(host, CANCEL_DATA[di], ("10.0.0.99", 5353), role="listen")
+        else:
+            w.net.inject(host, CANCEL_DATA[di], ("10.0.0.99", 5353), role="listen")
+            for _ in range(gap):
+                w.loop.run_iteration()
+            task.cancel()
+        w.settle()
+        excs = w.exceptions()
+        if excs:
+            problems.append(f"exception: {excs[0][:300]}")
+        if not task.cancelled() and not task.done():
+            raise HarnessError("cancelled waiter still pending")
+        canary(w, host, lst, problems)
+        excs2 = w.exceptions()
+        if len(excs2) > len(excs):
+            problems.append(f"exception: {excs2[-1][:300]}")
+    return (problems[0] if problems else None), f"cancel:{'bad' if problems else 'ok'}"
+
+
 def run_stream(item: Tuple[List[Tuple[str, bytes]], int]) -> Tuple[Optional[str], str]:
     """One busy world, a stream of datagrams with clock steps between them."""
     chunk, variant = item
@@ -254,6 +304,12 @@ def run(tier: str, seed: int) -> Tuple[Stats, str, List[str], Dict[str, Any]]:
         record(problem, oc, {"mode": "stream", "variant": v, "chunk": [d for _, d in c], "n": len(c),
                              "what": f"stream of {len(c)} datagrams starting with {c[0][0]} (variant {v})"})
     sizes["streams"] = len(streams)
+    cancels = [(di, t, o, g) for di in range(len(CANCEL_DATA)) for t in ("lookup", "registration")
+               for o in ("cancel-first", "deliver-first") for g in (0, 1, 2)]
+    for item, (problem, oc) in zip(cancels, pmap_iter(run_cancel, cancels, chunk=4)):
+        record(problem, oc, {"mode": "cancel", "item": list(item),
+                             "what": f"{item[1]} waiter cancelled ({item[2]}, {item[3]} iterations apart) around valid datagram #{item[0]}"})
+    sizes["cancels"] = len(cancels)
     # all ordered pairs of one representative per (kind, decoder outcome class)
     reps: Dict[str, bytes] = {}
     for kind, d in corp:
@@ -283,6 +339,8 @@ def run(tier: str, seed: int) -> Tuple[Stats, str, List[str], Dict[str, Any]]:
 def replay(data: Dict[str, Any]) -> int:
     if data.get("mode") == "single":
         problem, oc = run_one((data["kind"], data["data"], data["source"]))
+    elif data.get("mode") == "cancel":
+        problem, oc = run_cancel(tuple(data["item"]))
     else:
         problem, oc = run_stream(([("x", d) for d in data["chunk"]], data.get("variant", 0)))
     if problem:
